@@ -119,9 +119,10 @@ Proof. exact row_to_kind_spec. Qed.
 
 (** * alignments *)
 
-(** the constructor: any number of named rows of equal length *)
-Theorem alignment_init_spec : forall (k : kind) (rows : list (Z * list Z)) (n : Z),
-  rows <> [] -> Forall (fun nr => zlen (snd nr) = n) rows ->
+(** the constructor: any number of rows of equal length under distinct names (names are
+    strings; they may be prefixes or substrings of one another) *)
+Theorem alignment_init_spec : forall (k : kind) (rows : list (name * list Z)) (n : Z),
+  rows <> [] -> Forall (fun nr => zlen (snd nr) = n) rows -> NoDup (map fst rows) ->
   exists a, al_init k rows = Ok a /\ AlnWF a /\ al_kind a = k /\ astr a = rows.
 Proof. exact al_init_spec. Qed.
 
@@ -129,7 +130,12 @@ Proof. exact al_init_spec. Qed.
 Theorem to_dict_spec : forall a : oalign, AlnWF a -> al_strings a = astr a.
 Proof. exact al_strings_spec. Qed.
 
-(** HEADLINE (one operation): slicing, indexing, reverse complement, the three
+(** HEADLINE (one operation) over NAMED rows (association lists name -> row,
+    lookup by name, the order documented for each operation): [aln + other] pairs the
+    rows by name whatever the order of the right operand and fails as the code does
+    when a name is missing or the counts differ; take_seqs takes a list of names or
+    one name as a plain string (normalised to that one name), with or without
+    negate; rename_seqs.  Also: slicing, indexing, reverse complement, the three
     concatenations, take_positions (+-negate), take_seqs (+-negate), filtered /
     no_degenerates / omit_gap_pos (any predicate of the two families, any motif
     length), get_degapped_relative_to, sample with given locations, to_rna /
@@ -164,7 +170,8 @@ Proof. exact al_rows_equal_length. Qed.
 Theorem chain_hypotheses_example :
   exists a, al_init KDna witness_rows = Ok a /\ AlnWF a /\
     chain_ok pinned (al_kind a, astr a)
-      [OSlice (Some 1) (Some 4); ORc; OTakePos [2; 0] false; OFilter (PGapFrac [45; 63] 0 1) 1; OAddSlices 0 1 0 1].
+      [OSlice (Some 1) (Some 4); ORc; OAddRows [([98], [65; 45]); ([97], [45; 67])]; OTakePos [2; 0] false;
+       OFilter (PGapFrac [45; 63] 0 1) 1; OAddSlices 0 1 0 1; ORename [([97], [98; 50])]; OTakeSeqs (NStr [98]) true].
 Proof. exact chain_example. Qed.
 
 (** * the array-backed class (Model/AlignedArr.v, transcribed from ArrayAlignment)
@@ -205,7 +212,8 @@ Proof. exact classes_agree_lemma. Qed.
 Theorem array_chain_hypotheses_example :
   good witness_rows /\
   arr_chain_ok repaired (KDna, witness_rows)
-    [OSliceStep None None (-2); ORc; OTakePos [-1; 0] false; OFilter (PGapFrac [45; 63] 1 2) 1; OAddSelf; OSample [1; 0] 2].
+    [OSliceStep None None (-2); ORc; OTakePos [-1; 0] false; OFilter (PGapFrac [45; 63] 1 2) 1; OAddSelf; OSample [1; 0] 2;
+     OAddRows [([98], [65]); ([97], [45])]; ORename [([98], [97; 50])]; OTakeSeqs (NStr [97]) true].
 Proof. exact arr_chain_example. Qed.
 
 (** * read-only methods of the annotatable class are the same functions of the strings
@@ -222,6 +230,25 @@ Theorem readonly_refine_strings : forall a : oalign, AlnWF a ->
   al_count_gaps_per_pos a = s_count_gaps_per_pos (astr a) /\ al_is_ragged a = false /\
   al_degap a = s_degap (astr a).
 Proof. exact readonly_refine_strings_lemma. Qed.
+
+(** count_gaps_per_seq, variable_positions, get_lengths (default arguments) likewise *)
+Theorem readonly_more_refine_strings : forall (a : oalign) (canon : list Z), AlnWF a ->
+  al_count_gaps_per_seq a = s_count_gaps_per_seq (astr a) /\
+  al_variable_positions a = s_variable_positions (astr a) /\
+  al_get_lengths canon a = s_get_lengths canon (astr a).
+Proof. exact readonly_more_lemma. Qed.
+
+(** [get_seq(name)] (the ungapped sequence of the named row) is the named gapped string
+    without its '-', for rows whose sequence holds no gap character, which is what the
+    constructor builds ([row_built_from_string_has_no_gap_in_data]); that this is kept by
+    every operation is compared, not proved *)
+Theorem get_seq_spec : forall (a : oalign) (n : name), AlnWF a -> Forall (fun nr => NoGapData (snd nr)) a ->
+  al_get_seq a n = option_map strip (find_row n (astr a)).
+Proof. exact ro_get_seq. Qed.
+
+Theorem row_built_from_string_has_no_gap_in_data : forall (k : kind) (s : list Z) (r : arow),
+  row_of_string k s = Ok r -> NoGapData r.
+Proof. exact no_gap_of_string. Qed.
 
 (** * no character is altered other than by complementing or the T/U exchange *)
 
@@ -252,21 +279,21 @@ Definition stmt_ops_refine_strings_unguarded : Prop := forall (a : oalign) (o : 
 
 (** C03-1: [aln + aln] takes the [self.data is other.data] shortcut: ragged rows TAC-T- / T-CGT- *)
 Theorem add_self_refuted :
-  strings_after pinned OAddSelf = Ok [(0, [84; 65; 67; 45; 84; 45]); (1, [84; 45; 67; 71; 84; 45])] /\
+  strings_after pinned OAddSelf = Ok [([97], [84; 65; 67; 45; 84; 45]); ([98], [84; 45; 67; 71; 84; 45])] /\
   spec_apply KDna witness_rows OAddSelf
-  = Ok (KDna, [(0, [84; 65; 67; 45; 84; 84; 65; 67; 45; 84]); (1, [84; 45; 67; 71; 84; 84; 45; 67; 71; 84])]).
+  = Ok (KDna, [([97], [84; 65; 67; 45; 84; 84; 65; 67; 45; 84]); ([98], [84; 45; 67; 71; 84; 84; 45; 67; 71; 84])]).
 Proof. exact add_self_witness. Qed.
 
 (** C03-2: [take_positions([0], negate=True)] raises for a DNA alignment *)
 Theorem take_positions_negate_refuted :
   strings_after pinned (OTakePos [0] true) = Err E_Type /\
-  spec_apply KDna witness_rows (OTakePos [0] true) = Ok (KDna, [(0, [65; 67; 45; 84]); (1, [45; 67; 71; 84])]).
+  spec_apply KDna witness_rows (OTakePos [0] true) = Ok (KDna, [([97], [65; 67; 45; 84]); ([98], [45; 67; 71; 84])]).
 Proof. exact take_positions_negate_witness. Qed.
 
 (** C03-3: [aln[-1]] is empty instead of the last column *)
 Theorem index_negative_refuted :
-  strings_after pinned (OIndex (-1)) = Ok [(0, []); (1, [])] /\
-  spec_apply KDna witness_rows (OIndex (-1)) = Ok (KDna, [(0, [84]); (1, [84])]).
+  strings_after pinned (OIndex (-1)) = Ok [([97], []); ([98], [])] /\
+  spec_apply KDna witness_rows (OIndex (-1)) = Ok (KDna, [([97], [84]); ([98], [84])]).
 Proof. exact index_negative_witness. Qed.
 
 (** C08-1 seen through the alignment: [aln[:9]] on 5 columns reports 9 columns *)
